@@ -167,7 +167,7 @@ func expectedFileNames(g *genpipe.Generated) []string {
 	out := expectedFileNamesOf(g, g.Schema, strings.TrimSuffix(g.FileProto.GetName(), ".proto"))
 	if g.Schema.Dep != nil && g.Schema.GenDep {
 		// the imported file was handed to the generator in the same request
-		out = append(out, expectedFileNamesOf(g, g.Schema.Dep, strings.TrimSuffix(genpipe.DepFileName(g.FileProto.GetName()), ".proto"))...)
+		out = append(out, expectedFileNamesOf(g, g.Schema.Dep, strings.TrimSuffix(g.Schema.DepName(g.FileProto.GetName()), ".proto"))...)
 		sort.Strings(out)
 	}
 	return out
